@@ -796,6 +796,22 @@ where
 
         assert_eq!(proof.len(), query_to_labels_map.len());
 
+        // Every proof must have exactly one pair of round commitments per halving step, as in `check`
+        let d = vk.supported_degree();
+        let log_d = ark_std::log2(d + 1) as usize;
+        for p in proof.iter() {
+            if p.l_vec.len() != p.r_vec.len() || p.l_vec.len() != log_d {
+                return Err(Error::IncorrectInputLength(
+                    format!(
+                        "Expected proof vectors to be {:}. Instead, l_vec size is {:} and r_vec size is {:}",
+                        log_d,
+                        p.l_vec.len(),
+                        p.r_vec.len()
+                    )
+                ));
+            }
+        }
+
         let mut randomizer = G::ScalarField::one();
 
         let mut combined_check_poly = P::zero();
